@@ -54,16 +54,17 @@ Dir(d, n, ar) == [d |-> d, n |-> n, ar |-> ar]
 LX == V("X")  LY == V("Y")
 la == A("a")  lb == A("b")  lc == A("c")  lz == A("z")
 
-(* the clause grammar: definitions of p_f/1 and q_f/2 (facts, rules, cut, a call into the other family) *)
+(* the clause grammar: definitions of p_f/1 and q_f/2 (facts, rules, cut, a call into another source's predicate). *)
+(* Calls go q -> p, family x -> family y -> the multifile facts, never back: every program terminates.            *)
 PQ(f, cs) ==
   LET p(t) == C1(PN(f), t)
       q(s, t) == C2(QN(f), s, t)
-      po(t) == C1(PN(Other(f)), t)
+      po(t) == IF f = "x" THEN C1(PN("y"), t) ELSE C1(MN, t)
   IN CASE cs = 0 -> [p |-> <<>>, q |-> <<>>]
        [] cs = 1 -> [p |-> <<Fact(p(la))>>, q |-> <<>>]
        [] cs = 2 -> [p |-> <<Fact(p(la)), Fact(p(lb))>>, q |-> <<>>]
        [] cs = 3 -> [p |-> <<Fact(p(lb)), Fact(p(lc))>>, q |-> <<Cl(q(LX, LY), Conj(p(LX), p(LY)))>>]
-       [] cs = 4 -> [p |-> <<Fact(p(la)), Cl(p(LX), q(LX, V("_")))>>, q |-> <<Fact(q(lb, I(1))), Fact(q(lc, I(2)))>>]
+       [] cs = 4 -> [p |-> <<Fact(p(la)), Fact(p(lc))>>, q |-> <<Fact(q(lb, I(1))), Cl(q(LX, I(2)), p(LX)), Fact(q(V("_"), I(3)))>>]
        [] cs = 5 -> [p |-> <<Cl(p(LX), po(LX)), Fact(p(lz))>>, q |-> <<>>]
        [] cs = 6 -> [p |-> <<>>, q |-> <<Cl(q(LX, LY), Conj(p(LX), Conj(Cut, Eq(LY, I(1))))), Fact(q(lz, I(2)))>>]
 
@@ -134,7 +135,7 @@ ProgFrom(L, j) == IF j > Len(KeySeq) THEN <<>>
                   ELSE [i \in 1..Len(L.cl[KeySeq[j]]) |-> Cl(L.cl[KeySeq[j]][i].h, L.cl[KeySeq[j]][i].b)] \o ProgFrom(L, j + 1)
 Prog(L) == ProgFrom(L, 1)
 (* the clauses a call of K can reach: the p/q predicates call each other, every other predicate consists of facts *)
-PQKeys == { <<PN("x"), 1>>, <<QN("x"), 2>>, <<PN("y"), 1>>, <<QN("y"), 2>> }
+PQKeys == { <<PN("x"), 1>>, <<QN("x"), 2>>, <<PN("y"), 1>>, <<QN("y"), 2>>, <<MN, 1>> }
 RECURSIVE ProgFor(_, _, _)
 ProgFor(L, ks, j) == IF j > Len(KeySeq) THEN <<>>
                      ELSE (IF KeySeq[j] \in ks THEN [i \in 1..Len(L.cl[KeySeq[j]]) |-> Cl(L.cl[KeySeq[j]][i].h, L.cl[KeySeq[j]][i].b)] ELSE <<>>)
